@@ -190,7 +190,7 @@ NAMES = [None, None, "Draft", "In progress", "état", "a b", "x/y", "Done!"]
 def cases(draw, tier):
     provs = draw(st.sampled_from([("machine",), ("machine", "model"), ("machine", "model", "l0"), ("machine", "l0", "late0")]))
     spec = draw(gen.machine_spec(max_states=5, providers=provs, late=tuple(p for p in provs if p.startswith("late")), async_mode=draw(st.sampled_from(["none", "none", "none", "all"])), sends=False,
-                                 guard_kinds=("method", "property"), validators=draw(st.booleans())))
+                                 guard_kinds=("method", "property", "func"), validators=draw(st.booleans())))
     n = len(spec["states"])
     for s in spec["states"]:
         nm = draw(st.sampled_from(NAMES))
@@ -216,7 +216,7 @@ def cases(draw, tier):
     if "late0" in provs:
         in_unless = {g for t in spec["trans"] for g in t["unless"]}
         for g in list(spec["guards"]):
-            if g["name"] not in in_unless and not g.get("async") and draw(st.booleans()) and not any(x["name"] == g["name"] and x["prov"] == "late0" for x in spec["guards"]):
+            if g["name"] not in in_unless and g["kind"] != "func" and not g.get("async") and draw(st.booleans()) and not any(x["name"] == g["name"] and x["prov"] == "late0" for x in spec["guards"]):
                 for x in spec["guards"]:
                     if x["name"] == g["name"]:
                         x["async"] = False
